@@ -64,6 +64,11 @@ int main(int argc, char** argv)
 		for (size_t step : { 1000u, 333u, 97u }) { std::vector<size_t> cuts; for (size_t c = step; c < stream.size(); c += step) cuts.push_back(c); char what[64]; snprintf(what, 64, "stream cut every %zu bytes", step); if (exchange(reqs, stream, cuts, what)) return 1; }
 		{ size_t p = stream.find("64\r\n", starts[1]); if (p != std::string::npos) { if (exchange(reqs, stream, { p + 4 + 40 }, "a 100-byte chunk arriving as 40 bytes, then the rest together with the following chunks")) return 1; } }
 		{ size_t p = stream.find("0\r\n\r\n", starts[1] + 100); if (p != std::string::npos) { if (exchange(reqs, stream, { p + 3 }, "cut between the last-chunk line and its final CRLF")) return 1; } }
+		// header names are case-insensitive: the same POST with canonical, lower-case and upper-case names delivers the same body and header values
+		for (const char* cl : { "Content-Length", "content-length", "CONTENT-LENGTH", "cOnTeNt-lEnGtH" }) { int fd[2]; if (socketpair(AF_UNIX, SOCK_STREAM, 0, fd) != 0) return 2;
+			std::string rq = std::string("POST /p HTTP/1.1\r\nHOST: h\r\nx-api-TOKEN: t0k\r\n") + cl + ": 5\r\n\r\nhello"; if (write(fd[0], rq.data(), rq.size()) != (ssize_t)rq.size()) return 2;
+			Socket sock(fd[1]); alarm(10); HttpRequest r(sock); alarm(0); close(fd[0]);
+			if (r.body().length() != 5 || r.header("X-Api-Token") != "t0k" || r.header("x-api-token") != "t0k" || !r.hasHeader("host") || r.header("content-LENGTH") != "5") { printf("REPRODUCED header names are not case-insensitive: with '%s' the body has %d bytes, X-Api-Token='%s'\n", cl, r.body().length(), *r.header("X-Api-Token")); return 1; } }
 		// the peer goes away after any prefix of the stream: reading must end promptly (alarm), whatever was cut
 		{ std::string two = stream.substr(0, starts[2]);
 		  for (size_t cut = 0; cut <= two.size(); cut += (cut < 400 ? 1 : 41)) { int fd[2]; if (socketpair(AF_UNIX, SOCK_STREAM, 0, fd) != 0) return 2;
